@@ -511,12 +511,7 @@ def execute(text, placeholders, imem_names, st, addr, length, block_limit=None):
         g2, s2 = loc_op(st, s, w)
         # the first store must not hit a BP/PX/PY cell the other operand's address depends on
         # (the table does not say whether addresses are formed before or after the first store)
-        for o1, o2 in ((d, s), (s, d)):
-            if isinstance(o1, OIMem) and isinstance(o2, OIMem):
-                a1 = o1.addr(st)
-                for kind, cell in o2.parts:
-                    if kind == "cell":
-                        st.need(z3.Or(bv(INTERNAL + cell) < a1, bv(INTERNAL + cell) > a1 + (w - 1)))
+        _mode_cell_guard(st, d, s, w)
         a, b = g1(), g2()
         s1(b)
         # the second store sees the first (matters only when the ranges overlap)
@@ -780,6 +775,17 @@ def execute(text, placeholders, imem_names, st, addr, length, block_limit=None):
     raise NotSpecified(f"mnemonic {mn}")
 
 
+def _mode_cell_guard(st, d, s, w):
+    """Two-store instructions: the first store must not hit a BP/PX/PY cell the other operand's
+    address depends on (the table does not say when operand addresses are formed)."""
+    for o1, o2 in ((d, s), (s, d)):
+        if isinstance(o1, OIMem) and isinstance(o2, OIMem):
+            a1 = o1.addr(st)
+            for kind, cell in o2.parts:
+                if kind == "cell":
+                    st.need(z3.Or(bv(INTERNAL + cell) < a1, bv(INTERNAL + cell) > a1 + (w - 1)))
+
+
 def _addr_of(st, o):
     if isinstance(o, OIMem):
         return o.addr(st)
@@ -851,6 +857,7 @@ def _block(mn, ops, st, n):
 
     if mn == "EXL":
         d, s = ops
+        _mode_cell_guard(st, d, s, n)
         dc, sc = cursor(d, 1), cursor(s, 1)
         for k in range(n):
             a, b = st.rd(dc[1], 1, why="dst-rmw"), st.rd(sc[1], 1, why="dst-rmw")
